@@ -2,6 +2,7 @@
 use crate::h::*;
 use std::sync::atomic::Ordering as AO;
 use std::sync::Arc;
+use std::future::Future;
 use vsched::rt;
 
 pub fn list() -> Vec<(&'static str, super::Scenario)> {
@@ -23,6 +24,7 @@ pub fn list() -> Vec<(&'static str, super::Scenario)> {
         ("stale_entry", stale_entry),
         ("excl_drop", excl_drop),
         ("indep_stale", indep_stale),
+        ("wake_stale_entry", wake_stale_entry),
     ]
 }
 
@@ -197,6 +199,7 @@ fn fd_result(cfg: &Cfg) {
     let body = if gated { Body::gated(&g) } else { Body::plain() };
     let mut hs = vec![];
     let mut kept = None;
+    let mut polled_once = None;
     if after {
         let h = w.after(&q, "AF", &g, Body::plain());
         match mode {
@@ -210,6 +213,30 @@ fn fd_result(cfg: &Cfg) {
             1 => hs.push(spawn(move || h.sync())),
             2 => h.detach(),
             3 => hs.push(spawn(move || h.poll_then_drop(k))),
+            5 | 6 => {
+                // polled once by a task that then neither re-polls nor drops the future: the pool must take the queue over
+                // when the event arrives (mode 6: the holder then waits with .sync())
+                let (tx, rx) = std::sync::mpsc::channel();
+                let g2 = g.clone();
+                hs.push(spawn(move || {
+                    let mut h = h;
+                    let mut f = Box::pin(h.fut.take().unwrap());
+                    let (w, _c) = counting_waker();
+                    let mut cx = futures::task::Context::from_waker(&w);
+                    let first = f.as_mut().poll(&mut cx);
+                    vsched::thread::yield_now();
+                    g2.open();
+                    if let futures::task::Poll::Ready(r) = first {
+                        if r != Ok(h.token) {
+                            rt::violation("FUTURE-RESULT FD resolved to the wrong value on its first poll".into());
+                        }
+                        let _ = tx.send(None);
+                    } else {
+                        let _ = tx.send(Some((f, h.token, h.rec.clone(), h.op)));
+                    }
+                }));
+                polled_once = Some(rx);
+            }
             _ => kept = Some(h),
         }
     }
@@ -219,6 +246,21 @@ fn fd_result(cfg: &Cfg) {
         join(h, &format!("consumer{}", i));
     }
     rt::quiesce();
+    if let Some(rx) = polled_once {
+        if let Ok(Some((f, token, rec, op))) = rx.try_recv() {
+            if pool > 0 {
+                let r = rec.get(op);
+                if r.ends.is_empty() {
+                    rt::violation("STRANDED FD was polled once and then left alone: a pool thread was available but the operation never completed".into());
+                }
+            }
+            let f = std::pin::Pin::into_inner(f);
+            let r = if mode == 6 { f.sync() } else { block_on(f) };
+            if r != Ok(token) {
+                rt::violation("FUTURE-RESULT FD (polled once, then awaited late) resolved to the wrong value".into());
+            }
+        }
+    }
     if let Some(h) = kept {
         if pool > 0 {
             // the operation ran although nobody ever polled the future
@@ -282,6 +324,22 @@ fn fs_cancel(cfg: &Cfg) {
         w.future_desync(&q, "AHEAD-FD", Body::gated(&g_ahead)).detach();
     }
     let mut hs = vec![];
+    let mut others: Vec<Obj> = vec![];
+    match cfg.opt("syncer", 0) {
+        1 => {
+            // a thread blocked in sync on the queue while the future_sync future lives and dies
+            let (w1, q1) = (w.clone(), q.clone());
+            hs.push(spawn(move || { w1.sync(&q1, "SYNCER", Body::plain()); }));
+        }
+        2 => {
+            // ... and the same from a job on another object (it occupies a pool thread)
+            let x = w.raw();
+            let (w1, q1) = (w.clone(), q.clone());
+            w.desync(&x, "X", Body::with(move || { w1.sync(&q1, "SYNCER", Body::plain()); }));
+            others.push(x);
+        }
+        _ => {}
+    }
     {
         let (w1, q1, g1) = (w.clone(), q.clone(), g.clone());
         hs.push(spawn(move || {
@@ -304,7 +362,11 @@ fn fs_cancel(cfg: &Cfg) {
     for (i, h) in hs.into_iter().enumerate() {
         join(h, &format!("fs{}", i));
     }
-    finish(&w, &[&q], pool);
+    let mut objs: Vec<&Obj> = vec![&q];
+    for o in &others {
+        objs.push(o);
+    }
+    finish(&w, &objs, pool);
     shutdown();
 }
 
@@ -1118,6 +1180,50 @@ fn indep_stale(cfg: &Cfg) {
     let mut all: Vec<&Obj> = vec![&x, &a, &b];
     for (y, _) in &busy {
         all.push(y);
+    }
+    finish(&w, &all, pool);
+    shutdown();
+}
+
+/// C06 with a saturated pool and stale schedule entries: a gated future op on queue C is suspended on a
+/// pool thread; every pool thread is then pinned by blocking jobs; a queue is scheduled and run by its
+/// caller (stale entry); the wake-up arrives (C is appended behind the stale entry); only then do the
+/// pool threads become free.  The suspended op must be polled again and the marker behind it must run.
+fn wake_stale_entry(cfg: &Cfg) {
+    let pool = cfg.pool();
+    setup(pool);
+    let kind = cfg.opt("kind", 0);
+    let w = World::new();
+    let c = w.raw();
+    let g = Gate::new();
+    if kind == 0 {
+        w.future_desync(&c, "FD", Body::gated(&g)).detach();
+    } else {
+        w.after(&c, "AF", &g, Body::plain()).detach();
+    }
+    w.desync(&c, "M", Body::plain());
+    // let a pool thread poll it: it suspends
+    rt::quiesce();
+    let mut pins = vec![];
+    for i in 0..pool {
+        let bq = w.raw();
+        let bg = BGate::new();
+        w.desync(&bq, &format!("pin{}", i), Body::blocking(&bg));
+        pins.push((bq, bg));
+    }
+    rt::quiesce();
+    let b = w.raw();
+    w.desync(&b, "B", Body::plain());
+    w.sync(&b, "SB", Body::plain());
+    let g2 = g.clone();
+    let t = spawn(move || g2.open());
+    for (_, bg) in &pins {
+        bg.open();
+    }
+    join(t, "env");
+    let mut all: Vec<&Obj> = vec![&c, &b];
+    for (bq, _) in &pins {
+        all.push(bq);
     }
     finish(&w, &all, pool);
     shutdown();
